@@ -322,7 +322,8 @@ Definition qct_set (v : option str) (env : option str) : option str :=
            | None => Some value
            end
   end.
-(* detect_charset, then _is_utf8 *)
+(* Request.charset as determined at FIRST USE on a wrapper (detect_charset, then _is_utf8); the wrapper then keeps
+   this answer (the documented per-object memo, property C01), so this is what a fresh Request answers *)
 Definition qcharset_get (env : option str) : val :=
   let ctype := match env with Some t => t | None => [] end in
   let cs := match charset_re ctype with
